@@ -67,6 +67,9 @@ func scale() float64 {
 }
 
 func (s *Stream) count(tier string) int {
+	if s.N(tier) <= 2000 && scale() < 1 {
+		return s.N(tier) // fixed probes and small enumerations are never scaled down
+	}
 	n := float64(s.N(tier)) * scale()
 	if n < 1 && s.N(tier) > 0 {
 		n = 1
